@@ -27,6 +27,14 @@ type exampleBuilder struct {
 	// a type occurs on one path, not the number of paths: n types which refer to
 	// each other have (2n)!/2^n of them.
 	shown map[internalSchema.Node]int
+
+	// absorbers is the number of places on the way from the root to the node
+	// being built where a valid document may do without the value: optional
+	// properties, items of arrays which may be empty and alternatives which are
+	// followed by other ones. A value which can't be built below such a place
+	// (a required property meets the recursion cut-off) is given up as a whole:
+	// the nearest of these places leaves it out.
+	absorbers int
 }
 
 // exampleRepeatLimit is how many times one example contains the same optional
@@ -96,16 +104,29 @@ func (b *exampleBuilder) buildExampleForObjectNode(node *internalSchema.ObjectNo
 	buf.WriteRune('{')
 	emitted := false
 	for i, childNode := range node.Children() {
-		if _, ok := required[node.Key(i).Key]; !ok && !b.canShow(childNode) {
+		_, isRequired := required[node.Key(i).Key]
+		if !isRequired && !b.canShow(childNode) {
 			continue
 		}
 
+		if !isRequired {
+			b.absorbers++
+		}
 		ex, err := b.Build(childNode)
+		if !isRequired {
+			b.absorbers--
+		}
 		if err != nil {
 			return nil, err
 		}
 
 		if ex == nil {
+			if isRequired && b.absorbers > 0 {
+				// An object without a required property is not valid: there is
+				// no example of this object, the place which may do without it
+				// leaves it out.
+				return nil, nil
+			}
 			continue
 		}
 
@@ -181,7 +202,13 @@ func (b *exampleBuilder) buildExampleForArrayNode(node *internalSchema.ArrayNode
 			break
 		}
 
+		if mayStop {
+			b.absorbers++
+		}
 		ex, err := b.Build(childNode)
+		if mayStop {
+			b.absorbers--
+		}
 		if err != nil {
 			return nil, err
 		}
@@ -214,12 +241,19 @@ func (b *exampleBuilder) buildExampleForMixedValueNode(node *internalSchema.Mixe
 	// The first alternative which has an example is used: an alternative that
 	// only leads back into a type being processed (`@node | @leaf` inside @node)
 	// has none, the next one may terminate the recursion.
-	for _, typeName := range tt {
+	for i, typeName := range tt {
 		if !bytes.Bytes(typeName).IsUserTypeName() {
 			return node.Value(), nil
 		}
 
+		hasNext := i+1 < len(tt)
+		if hasNext {
+			b.absorbers++
+		}
 		ex, err := b.buildExampleForUserType(typeName)
+		if hasNext {
+			b.absorbers--
+		}
 		if err != nil || ex != nil {
 			return ex, err
 		}
